@@ -338,7 +338,8 @@ Definition orc3 : roracle := mkROracle (fun _ _ => 3%nat) (fun _ _ => false).
 Definition l2_eval (c : list opinfo * list rstmt) : list Z :=
   let '(flat, t) := c in
   let races := flat_map (fun o => all_races (rrunl o t [])) [orc2; orc3; orc 0; orc 1; orc 2; orc 5] in
-  let cl := map (fun xy => let a := hd 0 (o_name (fst xy)) in let b := hd 0 (o_name (snd xy)) in (classify_pair flat a b, a, b)) races in
+  let cl := map (fun xy => let a := hd 0 (o_name (fst xy)) in let b := hd 0 (o_name (snd xy)) in
+                       (classify_pair flat (list_eqb Z.eqb (tl (o_name (fst xy))) (tl (o_name (snd xy)))) a b, a, b)) races in
   match find (fun r => fst (fst r) =? 0) cl with
   | Some (c0, a, b) => [a; b; c0]
   | None => match cl with (c0, a, b) :: _ => [a; b; c0] | [] => [] end
